@@ -925,6 +925,52 @@ pub fn extras(thorough: bool) -> Vec<Extra> {
             }
         }
     }
+    // (n) a CTE derived from a SELECT (`CommonTableExpression::from_select`, `try_set_cols_from_select`): the column list
+    //     is taken from the select list when EVERY item has a name (a column, a qualified column, an alias), and is absent
+    //     otherwise; the table name is `cte_<first table>`
+    for shape in 0..6usize {
+        for api in ["from_select", "try_set_cols_from_select"] {
+            v.push(Extra {
+                name: format!("cte-from-select items={shape} {api}"),
+                real: Box::new(move |d, build| {
+                    let mut inner = Query::select();
+                    match shape {
+                        0 => inner.column(a("id")).column(a("b")),
+                        1 => inner.column(a("id")).column((a("t1"), a("b"))),
+                        2 => inner.column(a("id")).expr_as(Expr::col(a("b")).mul(2), a("v2")),
+                        3 => inner.column(a("id")).expr(Expr::col(a("b")).mul(2)),
+                        4 => inner.expr(Expr::col(a("b")).mul(2)),
+                        _ => inner.column(Asterisk),
+                    };
+                    inner.from(a("t1"));
+                    let cte = if api == "from_select" {
+                        CommonTableExpression::from_select(inner)
+                    } else {
+                        let mut c = CommonTableExpression::new();
+                        c.try_set_cols_from_select(&inner);
+                        c.query(inner).table_name(a("cte_t1"));
+                        c
+                    };
+                    let q = WithClause::new().cte(cte).to_owned().query(Query::select().column(Asterisk).from(a("cte_t1")).to_owned());
+                    render_any(&q, d, build)
+                }),
+                reference: Box::new(move |d, build| {
+                    let q = |n: &str| qd(d, n);
+                    let two = ph(d, build, 1, "2");
+                    let (cols, items): (Option<Vec<&str>>, String) = match shape {
+                        0 => (Some(vec!["id", "b"]), format!("{}, {}", q("id"), q("b"))),
+                        1 => (Some(vec!["id", "t1_b"]), format!("{}, {}.{}", q("id"), q("t1"), q("b"))),
+                        2 => (Some(vec!["id", "v2"]), format!("{}, {} * {two} AS {}", q("id"), q("b"), q("v2"))),
+                        3 => (None, format!("{}, {} * {two}", q("id"), q("b"))),
+                        4 => (None, format!("{} * {two}", q("b"))),
+                        _ => (None, "*".to_string()),
+                    };
+                    let cl = cols.map(|c| format!(" ({})", c.iter().map(|x| q(x)).collect::<Vec<_>>().join(", "))).unwrap_or_default();
+                    Some(format!("WITH {}{cl} AS (SELECT {items} FROM {}) SELECT * FROM {}", q("cte_t1"), q("t1"), q("cte_t1")))
+                }),
+            });
+        }
+    }
     // (g) PostgreSQL operators and functions in WHERE, between two other conditions; MySQL has none of them
     let pg_ops: Vec<(&'static str, PgBinOper)> = vec![
         ("ILIKE", PgBinOper::ILike),
@@ -1120,15 +1166,15 @@ pub fn extras(thorough: bool) -> Vec<Extra> {
             });
         }
     }
-    // (l) window frames: unit x start x optional end (40 forms), inline OVER ( .. ) and in a named WINDOW
+    // (l) window frames: unit x start x optional end (40 forms) x window with / without PARTITION BY and ORDER BY, inline OVER ( .. ) and in a named WINDOW
     {
         let bounds = ["UNBOUNDED PRECEDING", "1 PRECEDING", "CURRENT ROW", "2 FOLLOWING", "UNBOUNDED FOLLOWING"];
         for unit in ["ROWS", "RANGE"] {
             for si in 0..4usize {
                 for ei in [None, Some(1usize), Some(2), Some(3), Some(4)] {
-                    for named in [false, true] {
+                    for (named, part, ord) in [(false, true, true), (true, true, true), (false, false, true), (true, false, true), (false, true, false), (false, false, false)] {
                         v.push(Extra {
-                            name: format!("window-frame {unit} {} {:?} named={named}", bounds[si], ei.map(|e| bounds[e])),
+                            name: format!("window-frame {unit} {} {:?} named={named} partition={part} order={ord}", bounds[si], ei.map(|e| bounds[e])),
                             real: Box::new(move |d, build| {
                                 let fr = |i: usize| match i {
                                     0 => Frame::UnboundedPreceding,
@@ -1138,8 +1184,10 @@ pub fn extras(thorough: bool) -> Vec<Extra> {
                                     _ => Frame::UnboundedFollowing,
                                 };
                                 let ft = if unit == "ROWS" { FrameType::Rows } else { FrameType::Range };
-                                let mut w = WindowStatement::partition_by(a("s"));
-                                w.order_by(a("id"), Order::Asc);
+                                let mut w = if part { WindowStatement::partition_by(a("s")) } else { WindowStatement::new() };
+                                if ord {
+                                    w.order_by(a("id"), Order::Asc);
+                                }
                                 match ei {
                                     None => w.frame_start(ft, fr(si)),
                                     Some(e) => w.frame_between(ft, fr(si), fr(e)),
@@ -1178,7 +1226,15 @@ pub fn extras(thorough: bool) -> Vec<Extra> {
                                         format!("{unit} BETWEEN {x} AND {y}")
                                     }
                                 };
-                                let spec = format!("(PARTITION BY {} ORDER BY {} ASC {frame})", q("s"), q("id"));
+                                let mut parts = vec![];
+                                if part {
+                                    parts.push(format!("PARTITION BY {}", q("s")));
+                                }
+                                if ord {
+                                    parts.push(format!("ORDER BY {} ASC", q("id")));
+                                }
+                                parts.push(frame);
+                                let spec = format!("({})", parts.join(" "));
                                 Some(if named {
                                     format!("SELECT {}, SUM({}) OVER {} AS {} FROM {} WINDOW {} AS {spec} ORDER BY {} ASC", q("id"), q("b"), q("w"), q("x"), q("t1"), q("w"), q("id"))
                                 } else {
@@ -1339,7 +1395,7 @@ pub fn extras(thorough: bool) -> Vec<Extra> {
 /// one construct = one key: the family name (for the parameterised families the first word)
 pub fn family_of(name: &str) -> String {
     let first = name.split(' ').next().unwrap_or("").to_string();
-    if ["index-hints", "named-window", "with", "lock", "tablesample", "distinct-on", "order-by", "window-frame", "values-table"].contains(&first.as_str()) {
+    if ["index-hints", "named-window", "with", "lock", "tablesample", "distinct-on", "order-by", "window-frame", "values-table", "cte-from-select"].contains(&first.as_str()) {
         first
     } else {
         name.split(' ').take(2).collect::<Vec<_>>().join(" ")
